@@ -18,9 +18,11 @@ func didQueryRules(p *Prog, r *Report, m *didModel, clause string, wantLife, wan
 		o := NewOrigin(p, fn)
 		fa := NewFacts(p, fn, o)
 		var get *Term
+		var getInstr ssa.Instruction
 		for _, cs := range callSites(fn) {
 			if cs.Callee != nil && m.getters[resolveBound(cs.Callee)] {
 				get = o.Of(cs.Instr.(*ssa.Call))
+				getInstr = cs.Instr.(*ssa.Call)
 			}
 			if cs.Callee != nil && m.setters[resolveBound(cs.Callee)] {
 				r.Fail(kp("REACH", hn+"→setter"), "queries do not write", p.Pos(cs.Instr.Pos()), "query handler writes a DID entry")
@@ -31,6 +33,9 @@ func didQueryRules(p *Prog, r *Report, m *didModel, clause string, wantLife, wan
 			for _, vc := range o.VirtualCalls() {
 				if !vc.Direct && vc.Callee != nil && m.getters[resolveBound(vc.Callee)] && vc.Term != nil && vc.Always {
 					get = vc.Term
+					if ri, isI := vc.Root.(ssa.Instruction); isI {
+						getInstr = ri
+					}
 				}
 			}
 		}
@@ -53,6 +58,36 @@ func didQueryRules(p *Prog, r *Report, m *didModel, clause string, wantLife, wan
 						ok = false
 					}
 					if x.Op == "phi" || x.Op == "binop" || x.Op == "slice" || strings.HasPrefix(x.Op, "unknown") {
+						ok = false
+					}
+				})
+			}
+			// … and it is the completely decoded one: every fallible step the identifier went through (base64 decoding returns the
+			// bytes decoded so far together with its error) is known to have succeeded where the lookup happens
+			if ok && getInstr != nil {
+				F := fa.AtInstrX(getInstr)
+				did.Walk(func(x *Term) {
+					if x.Op != "call" {
+						return
+					}
+					c, isCall := x.Val.(*ssa.Call)
+					if !isCall || c.Referrers() == nil || c.Parent() != fn {
+						return // a step inside an entered helper: the helper's own success is part of the path condition
+					}
+					tup, isTup := c.Type().(*types.Tuple)
+					if !isTup || tup.Len() < 2 || !isErrorType(tup.At(tup.Len()-1).Type()) {
+						return
+					}
+					checked := false
+					for _, rf := range *c.Referrers() {
+						if ex, isEx := rf.(*ssa.Extract); isEx && ex.Index == tup.Len()-1 {
+							at := cmpAtom("==", o.Of(ex), o.Of(ssa.NewConst(nil, ex.Type())))
+							if at != nil && Entails(F, at) {
+								checked = true
+							}
+						}
+					}
+					if !checked {
 						ok = false
 					}
 				})
